@@ -2,6 +2,7 @@ package main
 
 import (
 	"fmt"
+	"strings"
 	"go/token"
 	"go/types"
 
@@ -139,6 +140,7 @@ func runC19(c *Ctx) {
 		c.undecided("R1", "instance-floor", "", fmt.Sprintf("%d returns inside the alternatives loop, 7 confirmed by hand", nIn))
 	}
 	c19R4(c, matcher, patterns, loop)
+	c19R5(c)
 
 	// R2/R3 in the match arm of evalExpr
 	ee := p.LangFunc("(*Evaluator).evalExpr")
@@ -427,6 +429,28 @@ func c19R4(c *Ctx, matcher *ssa.Function, patterns *ssa.Parameter, loop rangeLoo
 					}
 				}
 			}
+			// the comparison is reached whenever the literal evaluated without error: no other
+			// condition (e.g. on the kinds of the two values) stands in front of it
+			{
+				var lit *ssa.Call
+				for b := range reg {
+					for _, in := range b.Instrs {
+						if call, ok := in.(*ssa.Call); ok && staticCalleeIs(call, "(*lang.Evaluator).evalExpr") {
+							lit = call
+						}
+					}
+				}
+				extra := []string{}
+				if lit != nil {
+					before := guardsAt(p, matcher, lit.Block())
+					for g := range guardsAt(p, matcher, cmp.Block()) {
+						if !before[g] && !strings.Contains(g, "evalExpr(e, exprs[i@exprs])#1") {
+							extra = append(extra, g)
+						}
+					}
+				}
+				c.check(lit != nil && len(extra) == 0, "R4", "literal-compare-unconditional", p.InstrPos(cmp), "every successfully evaluated literal is compared with the subject", "the literal's comparison is additionally guarded by {"+strings.Join(extra, " ; ")+"}: a literal pattern no longer matches exactly when subject == literal")
+			}
 			c.check(good && n == 1, "R4", "literal-match-iff-equal", p.InstrPos(cmp), "verdict true exactly under Compare == 0", "the literal arm's true verdict is not guarded by Compare(...) == 0")
 		case "ExprIdentifier":
 			n := 0
@@ -543,4 +567,51 @@ func isLenOf(v ssa.Value, structName, field string) bool {
 	}
 	sf, ok := loadedField(call.Call.Args[0])
 	return ok && sf.Is(structName, field)
+}
+
+// R5 block-bodies-stay-blocks
+func c19R5(c *Ctx) {
+	p := c.P
+	c.note("R5 block-bodies-stay-blocks: the evaluator tells an expression body from a block body by the node type (*StatementExpr vs anything else), and the match parselet wraps only a body that does not start with `{` in a StatementExpr; therefore a `{ … }` body must reach the evaluator as the *StatementBlock that Parser.block built: in Parser.statement, under current token == `{`, the only successful result is the block itself.")
+	st := p.LangFunc("(*Parser).statement")
+	if st == nil {
+		c.undecided("R5", "statement", "", "anchor not found")
+		return
+	}
+	ms := p.maySetOf(st, "p.current.Tag", tokenTagNames(p))
+	got := map[string]bool{}
+	for _, rc := range p.successResults(st) {
+		tags := ms.At(rc.Ret.Block())
+		if len(tags) == 1 && tags[0] == "LCurly" {
+			got[rc.Value] = true
+		}
+	}
+	c.check(len(got) == 1 && got["&(*lang.Parser).block(p)#0"], "R5", "brace-body-is-block", p.Pos(st.Pos()), "`{ … }` parses to the StatementBlock itself", "a `{ … }` statement can parse to {"+keysOf(got)+"} instead of the block: a match case with a one-statement block body would be treated as an expression body and yield that expression's value instead of null")
+	// the match parselet: StatementExpr wrapper only when the body does not start with `{`
+	mp := p.LangFunc("match")
+	if mp == nil {
+		c.undecided("R5", "match-parselet", "", "anchor lang.match not found")
+		return
+	}
+	n := 0
+	allInstrs(mp, func(in ssa.Instruction) {
+		a, ok := in.(*ssa.Alloc)
+		if !ok || !isLangNamed(a.Type(), "StatementExpr") {
+			return
+		}
+		n++
+		g := guardsAt(p, mp, a.Block())
+		c.check(g["p.current.Tag != LCurly"], "R5", fmt.Sprintf("expression-body-wrapper #%d", n), p.InstrPos(a), "a body is wrapped as an expression only when it does not start with `{`", "a StatementExpr body is built although the body may start with `{`")
+	})
+	if n == 0 {
+		c.undecided("R5", "expression-body-wrapper", p.Pos(mp.Pos()), "the match parselet builds no StatementExpr")
+	}
+}
+
+func tokenTagNames(p *Program) []string {
+	var out []string
+	for _, n := range constNames(p.Lang.Types, "TokenTag") {
+		out = append(out, n)
+	}
+	return out
 }
